@@ -179,15 +179,10 @@ class ReadDTCInformation(BaseService):
 
     @classmethod
     def check_subfunction_valid(cls, subfunction: int, standard_version: int = latest_standard) -> None:
-        tools.validate_int(subfunction, min=1, max=0xFF, name='Subfunction')
-        vlist = vars(cls)
-        ok = True
-        for v in vlist:
-            if isinstance(v, int) and v == subfunction:
-                ok = False
-                break
-        if not ok:
-            raise ValueError('Unknown subfunction : 0x%02x', subfunction)
+        tools.validate_int(subfunction, min=1, max=0x7F, name='Subfunction')    # Bit 7 is the suppressPosRspMsgIndicationBit
+        known = [v for k, v in vars(cls.Subfunction).items() if not k.startswith('_') and isinstance(v, int)]
+        if subfunction not in known:
+            raise ValueError('Unknown subfunction : 0x%02x' % subfunction)
 
         # These subfunction have been added in the 2020 version of the standard
         subfunction2020 = [
